@@ -24,11 +24,39 @@ class Unsupported(MirError):
 
 
 class Frame:
-    __slots__ = ("fn", "locals", "block", "idx", "ret_place", "ret_block")
+    __slots__ = ("fn", "locals", "block", "idx", "ret_place", "ret_block", "cont")
 
-    def __init__(self, fn, ret_place=None, ret_block=None):
+    def __init__(self, fn, ret_place=None, ret_block=None, cont=None):
         self.fn, self.locals, self.block, self.idx = fn, {}, "bb0", 0
-        self.ret_place, self.ret_block = ret_place, ret_block
+        self.ret_place, self.ret_block, self.cont = ret_place, ret_block, cont
+
+
+class FnItem:
+    """A function item / closure used as a value."""
+    immutable = True
+
+    def __init__(self, text, captures=()):
+        self.text, self.captures = text, list(captures)
+
+    def get_field(self, n):
+        return self.captures[n]
+
+    def __repr__(self):
+        return "FnItem(%s)" % self.text
+
+
+class CallBack:
+    """Returned by a model that needs rivia code (a closure / fn item) to run: the engine calls
+    `fn(*args)` and passes the result to cont.resume(ex, st, result), which yields the model's final
+    value or another CallBack."""
+
+    def __init__(self, fn, args, cont):
+        self.fn, self.args, self.cont = fn, args, cont
+
+
+class Identity:
+    def resume(self, ex, st, v):
+        return v
 
 
 class State:
@@ -49,7 +77,7 @@ class State:
         n = State.__new__(State)
         n.frames = []
         for fr in self.frames:
-            f2 = Frame(fr.fn, fr.ret_place, fr.ret_block)
+            f2 = Frame(fr.fn, fr.ret_place, fr.ret_block, fastcopy(fr.cont, memo))
             f2.block, f2.idx = fr.block, fr.idx
             f2.locals = {k: fastcopy(v, memo) for k, v in fr.locals.items()}
             n.frames.append(f2)
@@ -233,7 +261,11 @@ class Executor:
     def _read(self, st, depth, local, proj):
         fr = st.frames[depth]
         if local not in fr.locals:
-            raise Unsupported("read of uninitialised local %s in %s" % (local, fr.fn.name))
+            ty = fr.fn.locals.get(local, "")
+            if ty.startswith("{closure@"):
+                fr.locals[local] = FnItem(ty)
+            else:
+                raise Unsupported("read of uninitialised local %s in %s" % (local, fr.fn.name))
         v = fr.locals[local]
         for k, p in enumerate(proj):
             v = self._project(st, v, p, depth)
@@ -350,6 +382,10 @@ class Executor:
             return Str(s)
         if t == "()":
             return UNIT
+        if t.startswith("fnitem "):
+            return FnItem(t[7:])
+        if t.startswith("ZeroSized: "):
+            return FnItem(t[len("ZeroSized: "):])
         if "::promoted[" in t:
             m = re.fullmatch(r"(.*)::promoted\[(\d+)\]", t)
             base = re.escape(strip_generics(m.group(1)))
@@ -528,6 +564,8 @@ class Executor:
             vals = [self.eval_operand(st, a) for a in rv.args]
             a = Adt(strip_generics(head).split("::")[-1], None, None, vals)
             return a
+        if k == "closure":
+            return FnItem(rv.extra[0], [self.eval_operand(st, a) for a in rv.args])
         if k == "tuple":
             return Adt("(tuple)", None, None, [self.eval_operand(st, a) for a in rv.args])
         if k == "array":
@@ -551,14 +589,87 @@ class Executor:
             fr.locals[local] = v
         st.frames.append(fr)
 
+    RE_FNTRAIT = re.compile(r"^<(.*) as (Fn|FnMut|FnOnce)<\((.*)\)>>::(call|call_mut|call_once)$")
+
+    def closure_body(self, fnval):
+        """MIR body of a closure value, found by the source span in its type."""
+        m = re.match(r"\{closure@([^}]*)\}", fnval.text)
+        if not m:
+            return None
+        span = m.group(1)
+        hits = [i for i, l, p in self.mir.headers if not p and re.search(r"\(_1: &?(mut )?\{closure@%s\}" % re.escape(span), l)]
+        if len(hits) != 1:
+            raise Unsupported("closure body for %s matched %d functions" % (span, len(hits)))
+        return self.mir.function_at(hits[0])
+
+    def invoke(self, st, fnval, args, dest, ret_block, cont):
+        """Call a closure / fn item value with already evaluated args; cont (or None) receives the result."""
+        fnval_o = fnval
+        while isinstance(fnval_o, (Ref, BoxRef)):
+            fnval_o = self.deref(st, fnval_o)
+        if not isinstance(fnval_o, FnItem):
+            if isinstance(fnval_o, Adt) and not fnval_o.fields:
+                fnval_o = FnItem(fnval_o.ty)
+            else:
+                raise Unsupported("call of a non-function value %r" % (fnval_o,))
+        body = self.closure_body(fnval_o)
+        if body is not None:
+            selfarg = fnval if body.params[0][1].startswith("&") and isinstance(fnval, (Ref, BoxRef)) else (
+                BoxRef(fnval_o) if body.params[0][1].startswith("&") else fnval_o)
+            fr = Frame(body, dest, ret_block, cont)
+            if len(body.params) != len(args) + 1:
+                raise Unsupported("closure arity mismatch for " + body.name)
+            for (local, _), v in zip(body.params, [selfarg] + list(args)):
+                fr.locals[local] = v
+            st.frames.append(fr)
+            return
+        # a plain function item: resolve like any callee
+        callee = fnval_o.text
+        self.calls_seen[callee] = self.calls_seen.get(callee, 0) + 1
+        for rxp, fn in self.models:
+            if rxp.search(callee):
+                val = fn(self, st, list(args), callee, "")
+                return self.deliver(st, val, dest, ret_block, cont)
+        for rxp, finder in self.inline:
+            m = rxp.search(callee)
+            if m:
+                target = finder(self.mir, callee, m) if callable(finder) else self.mir.get(finder)
+                fr = Frame(target, dest, ret_block, cont)
+                for (local, _), v in zip(target.params, args):
+                    fr.locals[local] = v
+                st.frames.append(fr)
+                return
+        if self.allow_uf:
+            return self.deliver(st, self.on_uf(self, st, callee, list(args), ""), dest, ret_block, cont)
+        raise Unsupported("no model / MIR body for function value `%s`" % callee)
+
+    def deliver(self, st, val, dest, ret_block, cont):
+        """Hand a computed value to the continuation chain and finally to the destination place."""
+        while True:
+            if cont is not None:
+                val = cont.resume(self, st, val)
+                cont = None
+            if isinstance(val, CallBack):
+                return self.invoke(st, val.fn, val.args, dest, ret_block, val.cont)
+            break
+        self.write_place(st, dest, val)
+        self.goto(st, ret_block)
+
     def do_call(self, st, term):
         dest, callee, ops, tg = term.data
         args = [self.eval_operand(st, o) for o in ops]
         self.calls_seen[callee] = self.calls_seen.get(callee, 0) + 1
         dest_ty = self.type_of_local(st, dest.local)
+        m = self.RE_FNTRAIT.match(callee)
+        if m:
+            tup = args[1]
+            targs = tup.fields if isinstance(tup, Adt) else []
+            return self.invoke(st, args[0], targs, dest, tg.get("return"), None)
         for rx, fn in self.models:
             if rx.search(callee):
                 val = fn(self, st, args, callee, dest_ty)
+                if isinstance(val, CallBack):
+                    return self.invoke(st, val.fn, val.args, dest, tg.get("return"), val.cont)
                 self.write_place(st, dest, val)
                 self.goto(st, tg.get("return"))
                 return
@@ -613,9 +724,11 @@ class Executor:
             if not st.frames:
                 st.done, st.retval = True, rv
                 return
-            caller = self.frame(st)
-            self.write_place(st, fr.ret_place, rv)
-            self.goto(st, fr.ret_block)
+            if fr.cont is not None:
+                self.deliver(st, rv, fr.ret_place, fr.ret_block, fr.cont)
+            else:
+                self.write_place(st, fr.ret_place, rv)
+                self.goto(st, fr.ret_block)
         elif t.kind == "switch":
             op, tg = t.data
             v = self.eval_operand(st, op)
